@@ -62,6 +62,7 @@ struct State {
     choked: bool,
     interested: bool,
     keep_alive: u32,
+    handshake_received: bool,
 }
 
 struct Stats {
@@ -170,6 +171,7 @@ impl PeerHandler {
                 choked: true,
                 interested: false,
                 keep_alive: 0,
+                handshake_received: false,
             },
             stats: Stats::new(),
             msg_buff: vec![],
@@ -376,6 +378,15 @@ impl PeerHandler {
     ) -> Result<bool, Box<dyn std::error::Error>> {
         match opt_frame {
             Some(frame) => {
+                // Peer must introduce himself (valid handshake) before anything else
+                match frame {
+                    Frame::Handshake(_) => (),
+                    _ if !self.peer_state.handshake_received => {
+                        return Err(Error::HandshakeMissing.into())
+                    }
+                    _ => (),
+                }
+
                 self.peer_state.keep_alive = match frame {
                     Frame::KeepAlive(_) => self.peer_state.keep_alive,
                     _ => 0,
@@ -410,6 +421,7 @@ impl PeerHandler {
         handshake: &Handshake,
     ) -> Result<bool, Box<dyn std::error::Error>> {
         handshake.validate(&self.info_hash, &self.peer_id)?;
+        self.peer_state.handshake_received = true;
 
         let peer_init_handshake = self.peer_id.is_none();
         self.peer_id = Some(*handshake.peer_id());
